@@ -726,7 +726,6 @@ func (c *Ctx) allFuncsOfPkg(p *ssa.Package) []*ssa.Function {
 	return out
 }
 
-
 // capturedCell: the Alloc in the enclosing function that free variable fv refers to (capture by reference), or nil.
 func capturedCell(fv *ssa.FreeVar) *ssa.Alloc {
 	fn := fv.Parent()
